@@ -371,6 +371,11 @@ func vfRunSched(owners []string, prog []vfSchedOp, launchLoop map[string]time.Du
 	sup := &vfSpec{Name: "sup", Strategy: vfStratOne, Decisions: []vivid.SupervisionDecision{vivid.SupervisionDecisionRestart}}
 	for oi, o := range owners {
 		cs := &vfSpec{Name: o}
+		if (oi+len(prog))%2 == 0 {
+			// owners with a child: their own termination / restart is confirmed while they handle the child's OnKilled, a
+			// different code path from the one a childless owner takes
+			cs.Children = []*vfSpec{{Name: o + "c"}}
+		}
 		if iv, ok := launchLoop[o]; ok {
 			cs.Loop, cs.LoopID = iv, 9000+oi
 		}
